@@ -97,6 +97,21 @@ Theorem C02_pubkey_encoding_errors : forall flags sigver k,
     else None.
 Proof. exact pubkey_encoding_rules. Qed.
 
+(* null-dummy: under NULLDUMMY a non-empty extra element of OP_CHECKMULTISIG is the SIG_NULLDUMMY error; otherwise the dummy is dropped
+   and the result of the matching pushed (CHECKMULTISIGVERIFY consumes it or fails with its own error) *)
+Theorem C02_nulldummy : forall c e2 fS opcode, 1 <= ssize e2 ->
+  has_flag (c_flags c) SCRIPT_VERIFY_NULLDUMMY = true -> stop e2 1 <> [] ->
+  multisig_finish c e2 fS opcode = fail e2 SCRIPT_ERR_SIG_NULLDUMMY.
+Proof. exact multisig_nulldummy. Qed.
+
+Theorem C02_multisig_result : forall c e2 fS opcode, 1 <= ssize e2 ->
+  (has_flag (c_flags c) SCRIPT_VERIFY_NULLDUMMY = true -> stop e2 1 = []) ->
+  multisig_finish c e2 fS opcode =
+    if opcode =? OP_CHECKMULTISIGVERIFY
+    then (if fS then ok (popn e2 1) else fail (pushs (popn e2 1) (bool_vch false)) SCRIPT_ERR_CHECKMULTISIGVERIFY)
+    else ok (pushs (popn e2 1) (bool_vch fS)).
+Proof. exact multisig_result. Qed.
+
 (* --- multisig: the verification loop computes the in-order matching of signatures to keys ... *)
 Theorem C02_multisig_loop_is_ordered_matching : forall low_s c e code fuel sigsR keysR isig ikey,
   (forall idx, (idx < length sigsR)%nat -> stop e (Z.to_nat (isig + Z.of_nat idx)) = nth idx sigsR []) ->
@@ -145,6 +160,8 @@ Print Assumptions C02_checksig_result_is_the_verdict.
 Print Assumptions C02_nullfail.
 Print Assumptions C02_signature_encoding_errors.
 Print Assumptions C02_pubkey_encoding_errors.
+Print Assumptions C02_nulldummy.
+Print Assumptions C02_multisig_result.
 Print Assumptions C02_multisig_loop_is_ordered_matching.
 Print Assumptions C02_ordered_matching_characterisation.
 Print Assumptions C02_tapscript_validation_weight.
